@@ -681,7 +681,11 @@ func TestProp(t *testing.T) {
 					c.Ops = append(c.Ops, Op{K: "convert"})
 				case x < 18:
 					var vs []E
-					for j := rng.Intn(6); j > 0; j-- {
+					nb := rng.Intn(6)
+					if rng.Chance(1, 3) { // a second heap much longer than the first
+						nb = rng.Range(12, 80)
+					}
+					for j := nb; j > 0; j-- {
 						vs = append(vs, rv(rk))
 					}
 					k := "merge"
@@ -691,7 +695,11 @@ func TestProp(t *testing.T) {
 					c.Ops = append(c.Ops, Op{K: k, Vals: vs})
 				case x < 19:
 					var vs []E
-					for j := rng.Intn(5); j > 0; j-- {
+					nb := rng.Intn(5)
+					if rng.Chance(1, 3) { // a long batch pushed at once onto whatever is held
+						nb = rng.Range(12, 80)
+					}
+					for j := nb; j > 0; j-- {
 						vs = append(vs, rv(rk))
 					}
 					c.Ops = append(c.Ops, Op{K: "pushN", Vals: vs})
